@@ -141,6 +141,15 @@ func (m *machine) where() string {
 	return fmt.Sprintf("%s (%s:%d)", fn.String(), shortFile(p.Filename), p.Line)
 }
 
+// whereShort: "file.go:line" of the current instruction ("?" if unknown).
+func (m *machine) whereShort() string {
+	if m.curInstr == nil || m.curInstr.Pos() == token.NoPos {
+		return "?"
+	}
+	p := m.eng.prog.Fset.Position(m.curInstr.Pos())
+	return fmt.Sprintf("%s:%d", shortFile(p.Filename), p.Line)
+}
+
 func shortFile(f string) string {
 	if i := strings.LastIndex(f, "/"); i >= 0 {
 		return f[i+1:]
